@@ -27,7 +27,8 @@ META = {
         'Runtime oracle: random histories of PRINT (wrapping, scrolling), CLS 0/1/2, COLOR incl. non-black backgrounds, '
         'LOCATE, VIEW PRINT, SCREEN and page switches, PCOPY, WIDTH, KEY ON/OFF/LIST, INPUT line editing (insert, delete, '
         'line feed, clear line), graphics statements and video-memory POKEs in the text and graphics modes of CGA, EGA, '
-        'VGA, MDA, Hercules, Olivetti, PCjr and Tandy; a display fed only the emitted signals is compared pixel by pixel '
+        'VGA, MDA, Hercules, Olivetti, PCjr and Tandy, and under the double-byte codepages 932/936/949/950 in the 14/16-pixel '
+        'text modes with writes that split and join double-byte characters at every offset; a display fed only the emitted signals is compared pixel by pixel '
         'and cell by cell with what the session reports, after every statement; plus suspend/resume redraw. '
         'Held = no divergence on the observed histories.'),
     'level_note': (
@@ -45,7 +46,8 @@ META = {
     'assumptions': ['video signal semantics as implemented by the reference consumers in pcbasic/interface'],
     'require_counters': {'any': ['sig_update', 'sig_scroll', 'sig_clear_rows', 'sig_set_mode', 'scroll_up_seen',
                                  'scroll_down_seen', 'scroll_nonblack_background', 'compares', 'compares_at_inner_boundaries',
-                                 'page_switches_ok', 'graphics_mode_compares', 'text_mode_compares', 'resume_redraws']},
+                                 'page_switches_ok', 'graphics_mode_compares', 'text_mode_compares', 'resume_redraws',
+                                 'dbcs_histories', 'dbcs_compares_with_fullwidth_cells']},
     'timeout': {'quick': 900, 'thorough': 7200},
 }
 
@@ -73,11 +75,15 @@ PICTURE_SIGNALS = ('update', 'clear_rows', 'scroll', 'set_mode')
 def plan(tier, seed):
     shards = [{'kind': 'directed'}]
     if tier == 'quick':
-        for i in range(15):
+        for i in range(13):
             shards.append({'kind': 'histories', 'n': 20, 'len': 40, 'part': i})
+        for i in range(3):
+            shards.append({'kind': 'dbcs', 'n': 14, 'len': 40, 'part': i})
     else:
-        for i in range(96):
+        for i in range(84):
             shards.append({'kind': 'histories', 'n': 90, 'len': 45, 'part': i})
+        for i in range(16):
+            shards.append({'kind': 'dbcs', 'n': 70, 'len': 45, 'part': i})
     return shards
 
 
@@ -97,8 +103,11 @@ class Iface(object):
 class Monitor(object):
     """One session + its R-DISP."""
 
-    def __init__(self, harness, res, adapter, box):
+    def __init__(self, harness, res, adapter, box, dbcs=None):
         self.h, self.res, self.adapter, self.box = harness, res, adapter, box
+        # double-byte codepage: a trail byte may be printable ASCII while its cell shows nothing of its own,
+        # so the codepage-independent byte comparison does not apply; the unicode grids are compared
+        self.dbcs = dbcs
         self.history = []
         self.digest = b''
         self.nboundary = 0
@@ -139,7 +148,10 @@ class Monitor(object):
         return len(sigs)
 
     def case(self):
-        return {'adapter': self.adapter, 'history': list(self.history)}
+        c = {'adapter': self.adapter, 'history': list(self.history)}
+        if self.dbcs:
+            c['codepage'] = self.dbcs
+        return c
 
     def compare(self, when):
         """-> True if the display equals the reported state."""
@@ -210,12 +222,14 @@ class Monitor(object):
         disp.notes = {}
         t = disp.diff_text(tx)
         which = 'get_chars(unicode)'
-        if t is None:
+        if t is None and not self.dbcs:
             t = disp.diff_bytes(tb)
             which = 'get_chars(bytes)'
         if t is not None:
             ok = False
             key = 'display:text:after-%s' % dom if dom != 'no-signal' else 'display:text:changed-without-signal'
+            if self.dbcs:
+                key += ':dbcs'
             if t[0] == 'size':
                 key = 'display:text-size'
                 what = 'reported %dx%d, display was told %dx%d' % (t[1], t[2], t[3], t[4])
@@ -302,7 +316,7 @@ class Monitor(object):
             d = d2.diff_pixels(px2)
             if d is not None:
                 res.violation('resume:redraw:pixels', '%s: redraw signals after resume do not rebuild the picture: %r' % (self.adapter, d[:5]), self.case())
-            t = d2.diff_text(tx2) or d2.diff_bytes(s2.get_chars())
+            t = d2.diff_text(tx2) or (None if self.dbcs else d2.diff_bytes(s2.get_chars()))
             if t is not None:
                 res.violation('resume:redraw:text', '%s: redraw signals after resume do not rebuild the text: %r' % (self.adapter, t), self.case())
             for a in d2.anomalies:
@@ -326,7 +340,60 @@ def rstr(rng, n):
     return bytes(rng.choice(PRINTABLE) for _ in range(n))
 
 
+def rstr_dbcs(rng, n):
+    """Bytes mixing ASCII with lead/trail-range bytes: valid pairs, broken pairs, lone lead and trail bytes."""
+    out = bytearray()
+    while len(out) < n:
+        k = rng.random()
+        if k < 0.35:
+            out.append(rng.choice(PRINTABLE))
+        elif k < 0.75:
+            out.append(rng.randint(0x81, 0xfe))
+            out.append(rng.choice([rng.randint(0xa1, 0xfe), rng.randint(0x40, 0x7e), rng.randint(0x80, 0xfe)]))
+        else:
+            out.append(rng.randint(0x80, 0xff))
+    return bytes(b if b != 0x22 else 0x23 for b in out[:n])
+
+
 class Gen(object):
+    dbcs = False
+
+    def dbcs_stmt(self):
+        """Writes that split and join double-byte characters."""
+        r = self.rng
+        k = r.random()
+        W = self.width
+        if k < 0.35:
+            return b'LOCATE %d,%d:PRINT "%s"%s' % (r.randint(1, 24), r.randint(1, W), rstr_dbcs(r, r.choice([r.randint(1, 12), r.randint(10, 90)])),
+                                                  r.choice([b'', b';', b';']))
+        if k < 0.70:
+            # overwrite one or two cells somewhere (often inside an existing run) with a single-byte char / lead / trail byte
+            what = r.choice([b'"%s"' % bytes([r.choice(PRINTABLE)]), b'CHR$(%d)' % r.randint(0x81, 0xfe), b'CHR$(%d)' % r.randint(0x40, 0x7e),
+                             b'CHR$(%d);CHR$(%d)' % (r.randint(0x81, 0xfe), r.randint(0xa1, 0xfe)), b'" "'])
+            return b'LOCATE %d,%d:PRINT %s;' % (r.randint(1, 24), r.randint(1, W), what)
+        if k < 0.80:
+            return b'PRINT "%s"' % rstr_dbcs(r, r.randint(W - 6, 3 * W))
+        if k < 0.88:
+            return b'FOR I=1 TO %d:PRINT I;"%s":NEXT' % (r.randint(2, 28), rstr_dbcs(r, r.randint(2, 40)))
+        if k < 0.93:
+            return b'DEF SEG=&H%s:POKE %d,%d:DEF SEG' % (b'B000' if self.adapter in ('mda', 'hercules', 'egamono') else b'B800',
+                                                       2 * r.randint(0, 1999), r.choice([r.randint(0x81, 0xfe), r.choice(PRINTABLE)]))
+        return r.choice([b'PCOPY %d,%d' % (r.randint(0, 3), r.randint(0, 3)), b'SCREEN ,,%d,%d' % (r.randint(0, 3), r.randint(0, 3)),
+                         b'VIEW PRINT %d TO %d' % (r.randint(1, 10), r.randint(11, 24)), b'VIEW PRINT', b'CLS'])
+
+    def dbcs_input(self):
+        r = self.rng
+        keys = []
+        for _ in range(r.randint(2, 30)):
+            k = r.random()
+            if k < 0.3:
+                keys.append(chr(r.choice(PRINTABLE)))
+            elif k < 0.65:
+                keys.append(chr(r.randint(0x81, 0xfe)) + chr(r.choice([r.randint(0xa1, 0xfe), r.randint(0x40, 0x7e)])))
+            else:
+                keys.append(r.choice(['\x08', '\n', '\x1b', '\x05', '\x12', '\x0b', '\x0e', '\x1c', '\x1d', '\x1e', '\x1f', '\x7f']))
+        return r.choice([b'10 LINE INPUT A$', b'10 INPUT A$']), ''.join(keys) + '\r'
+
     def __init__(self, rng, adapter):
         self.rng = rng
         self.adapter = adapter
@@ -445,6 +512,12 @@ class Gen(object):
         if self.pending:
             p, self.pending = self.pending, None
             return p
+        if self.dbcs and self.screen == 0 and r.random() < 0.7:
+            if r.random() < 0.12:
+                cmd, keys = self.dbcs_input()
+                self.pending = (b'RUN', keys, None)
+                return cmd, None, None
+            return self.dbcs_stmt(), None, None
         k = r.random()
         if k < 0.06:
             cmd, tag = self.mode_switch()
@@ -474,17 +547,30 @@ class Gen(object):
                     self.screen = {(1, 80): 2, (2, 40): 1, (7, 80): 8, (8, 40): 7, (9, 40): 1}.get((self.screen, tag[1]), self.screen)
 
 
-def run_history(harness, res, rng, n_stmts, adapter=None, first=None, do_resume=None):
-    adapter = adapter or rng.choice(ADAPTER_WEIGHTS)
-    kw = ADAPTERS[adapter][0]
+DBCS_CODEPAGES = ['932', '936', '949', '950']
+DBCS_ADAPTERS = ['ega', 'vga', 'vga', 'egamono', 'mda', 'hercules', 'olivetti']     # 14- and 16-pixel text modes
+
+
+def run_history(harness, res, rng, n_stmts, adapter=None, first=None, do_resume=None, dbcs=None):
+    adapter = adapter or rng.choice(DBCS_ADAPTERS if dbcs else ADAPTER_WEIGHTS)
+    kw = dict(ADAPTERS[adapter][0])
+    if dbcs:
+        from pcbasic.basic import codepage
+        kw['codepage'] = codepage(dbcs)
+        res.count('dbcs_histories')
     with harness.Box(budget=3000, **kw) as box:
-        mon = Monitor(harness, res, adapter, box)
+        mon = Monitor(harness, res, adapter, box, dbcs)
         gen = Gen(rng, adapter)
+        gen.dbcs = bool(dbcs)
         res.count('histories')
         res.count('adapter_' + adapter)
         stmts = list(first or [])
         # most histories start by choosing a mode, half of them a graphics mode where there is one
-        if not stmts and rng.random() < 0.8:
+        if not stmts and dbcs:
+            stmts.append((b'SCREEN 0', None, ('screen', 0)))
+            if rng.random() < 0.3:
+                stmts.append((b'WIDTH 40', None, ('width', 40)))
+        elif not stmts and rng.random() < 0.8:
             s = rng.choice(gen.screens)
             stmts.append((b'SCREEN %d' % s, None, ('screen', s)))
             if s == 0 and rng.random() < 0.4:
@@ -506,6 +592,10 @@ def run_history(harness, res, rng, n_stmts, adapter=None, first=None, do_resume=
             gen.applied(tag, code == 0)
             if i < 3 and res.evaluations < 400:
                 res.sample({'adapter': adapter, 'stmt': cmd, 'keys': keys})
+            if dbcs:
+                tx = box.s.get_chars(as_type=str)
+                if any(c == u'' for row in tx for c in row):
+                    res.count('dbcs_compares_with_fullwidth_cells')
             if mon.aborted:
                 res.count('histories_cut_short_by_violation')
                 break
@@ -567,7 +657,32 @@ def replay(data, res):
                 stm.append((st[0], st[1], None))
             else:
                 stm.append((st, None, None))
-        run_history(harness, res, rng, len(stm), adapter=case['adapter'], first=stm, do_resume=True)
+        run_history(harness, res, rng, len(stm), adapter=case['adapter'], first=stm, do_resume=True, dbcs=case.get('codepage'))
+
+
+def directed_dbcs(harness, res):
+    """
+    Seed-independent: a row of single-byte and double-byte characters, then every cell of the run overwritten
+    in turn with a single-byte character, a lead byte and a trail byte (splitting and joining pairs), on a
+    blank row, next to the right margin, after scrolling and on a PCOPY'd page; compared after every statement.
+    """
+    rng = random.Random('C35:directed:dbcs')
+    pair = {'932': (0x88, 0x9f), '936': (0xb0, 0xa1), '949': (0xb0, 0xa1), '950': (0xa4, 0x40)}
+    for cp, adapter in (('932', 'vga'), ('936', 'ega'), ('949', 'olivetti'), ('950', 'mda')):
+        lead, trail = pair[cp]
+        run_ = b'a' + bytes([lead, trail]) * 2 + b'b' + bytes([lead, trail]) + b'cd'
+        for over in (b'"Z"', b'CHR$(%d)' % lead, b'CHR$(%d)' % trail, b'" "'):
+            stm = [b'SCREEN 0', b'CLS']
+            for col0 in (1, 70):
+                stm.append(b'LOCATE 5,%d:PRINT "%s";' % (col0, run_))
+                for off in range(len(run_) + 1):
+                    stm.append(b'LOCATE 5,%d:PRINT %s;' % (col0 + off, over))
+                    if off % 3 == 2:
+                        stm.append(b'LOCATE 5,%d:PRINT "%s";' % (col0, run_))
+            stm += [b'LOCATE 24,1:PRINT "%s"' % run_, b'PRINT "%s"' % (run_ * 9), b'LOCATE 22,3:PRINT %s;' % over,
+                    b'SCREEN ,,1,0', b'PRINT "%s"' % run_, b'PCOPY 1,0', b'SCREEN ,,0,0', b'LOCATE 1,2:PRINT %s;' % over]
+            stm = [(c, None, None) for c in stm]
+            run_history(harness, res, rng, len(stm), adapter=adapter, first=stm, do_resume=True, dbcs=cp)
 
 
 def run_shard(spec, res):
@@ -575,7 +690,13 @@ def run_shard(spec, res):
     kind = spec['kind']
     rng = random.Random('%s:C35:%s:%s' % (spec['seed'], kind, spec.get('part', 0)))
     if kind == 'directed':
-        return directed(harness, res)
+        directed(harness, res)
+        return directed_dbcs(harness, res)
+    if kind == 'dbcs':
+        for i in range(spec['n']):
+            hrng = random.Random(rng.getrandbits(64))
+            run_history(harness, res, hrng, spec['len'], dbcs=hrng.choice(DBCS_CODEPAGES))
+        return
     if kind == 'histories':
         for i in range(spec['n']):
             # one generator per history, drawn unconditionally: later histories do not depend on earlier verdicts
